@@ -66,7 +66,7 @@ func TestPropFaultDistSession(t *testing.T) {
 }
 
 func TestPropFaultDistLease(t *testing.T) {
-	vstat.Checks(300, 6000)
+	vstat.Checks(700, 10000)
 	kinds := []pools.Kind{pools.OpAlloc, pools.OpRelease, pools.OpRenew, pools.OpAdvance, pools.OpAllocAlt}
 	rapid.Check(t, func(rt *rapid.T) {
 		cidr := pools.GenEpochNet(false).Draw(rt, "net")
